@@ -28,6 +28,11 @@ func init() {
 		Doc: "enumerated: every drop / duplicate / delay-past-timeout of each of the first 6 handshake packets, all single faults and all pairs, for both start orders",
 	})
 	simrt.Register(&simrt.Scenario{
+		Prop: "C10", Name: "client-window-values", Enumerated: true, Count: fixed(256),
+		Run: c10ClientWindows, MaxOps: 1 << 20, Horizon: time.Hour,
+		Doc: "enumerated: NewClientConn with every window value 0..255 against a listening server (which re-accepts after a failed attempt) on a fault-free transport: a value the protocol can represent ends in the data phase on both sides with exactly that window; any other value makes the client's constructor fail with an error - it must not sit in the handshake",
+	})
+	simrt.Register(&simrt.Scenario{
 		Prop: "C10", Name: "hs-stray", Enumerated: true, Count: fixed(len(c10StrayKinds) * 6 * 2),
 		Run: c10Stray, MaxOps: 1 << 20, Horizon: time.Hour,
 		Doc: "enumerated: one attempt on a fault-free transport, one stray packet of an earlier connection (ACK, NACK, DATA, ping, FIN, SYNACK, empty, garbage) delivered to - or one receive error reported to - the server or the client at each of six instants around the SYN / echo / SYNACK exchange; once the client is in the data phase (its SYNACK is out) the server's attempt must have ended too - data phase with the client's window, or an error, never silently half-finished - and a server in the data phase implies a client that is",
@@ -602,4 +607,75 @@ func pktKind(b []byte) string {
 		return "DATA"
 	}
 	return "RAW"
+}
+
+// c10ClientWindows: every value of the client's window parameter.
+func c10ClientWindows(rc *simrt.RunCtx) {
+	n := uint8(rc.Idx() % 256)
+	hsT := 200 * time.Millisecond
+	tk := tknobs{handshake: hsT, static: true, resend: 200 * time.Millisecond}
+	lat := 5 * time.Millisecond
+	np := newNetPair(rc, &netCfg{latMin: lat, latMax: lat}, &netCfg{latMin: lat, latMax: lat})
+	ctx, cancel := context.WithCancel(context.Background())
+	defer cancel()
+	opts := []Option{WithTimeoutOptions(tk.opts()...)}
+	rc.Knob("N", n)
+	srvCh := make(chan *GoBackNConn, 1)
+	go func() {
+		// a listener: it accepts again after a failed attempt
+		for ctx.Err() == nil {
+			c, err := NewServerConn(ctx, np.s2c.send, np.c2s.recv, opts...)
+			if err == nil && c != nil && ctx.Err() == nil {
+				srvCh <- c
+				return
+			}
+			if c != nil {
+				c.Close()
+			}
+			select {
+			case <-ctx.Done():
+				return
+			case <-time.After(20 * time.Millisecond):
+			}
+		}
+	}()
+	type cres struct {
+		c   *GoBackNConn
+		err error
+	}
+	cliCh := make(chan cres, 1)
+	go func() {
+		c, err := NewClientConn(ctx, n, np.c2s.send, np.s2c.recv, opts...)
+		cliCh <- cres{c, err}
+	}()
+	bound := 40 * hsT
+	valid := n >= 1 && n <= 254
+	select {
+	case r := <-cliCh:
+		switch {
+		case valid && (r.err != nil || r.c == nil):
+			rc.Violate("c10.progress", "valid-window-refused", "NewClientConn with window %d failed on a fault-free transport: %v", n, r.err)
+		case !valid && r.err == nil:
+			rc.Violate("c10.window", "unrepresentable", "NewClientConn accepted window %d", n)
+		case valid:
+			select {
+			case sc := <-srvCh:
+				if sc.cfg.n != n || sc.cfg.s != n+1 || r.c.cfg.n != n {
+					rc.Violate("c10.window", "not-proposed", "client proposed %d: client runs with n=%d, server with n=%d s=%d", n, r.c.cfg.n, sc.cfg.n, sc.cfg.s)
+				}
+				sc.Close()
+			case <-time.After(bound):
+				rc.Violate("c10.attempt-hangs", "server/valid-window", "client with window %d is in the data phase, the server has not finished its attempt", n)
+			}
+		default:
+			rc.Probe("c10.client-refused-invalid-window")
+		}
+		if r.c != nil {
+			r.c.Close()
+		}
+	case <-time.After(bound):
+		rc.Violate("c10.attempt-hangs", fmt.Sprintf("client/window-%d", n), "%v after NewClientConn was called with window %d on a fault-free transport it has neither failed nor reached the data phase (the server refuses the SYN each time and listens again)", bound, n)
+	}
+	rc.Progress()
+	cancel()
 }
